@@ -27,13 +27,16 @@ def set_data_positions(
         _allocate_layout_r(vyper_module, no_storage=True)
         _allocate_with_overrides(vyper_module, storage_layout_overrides)
 
-        # sanity check that generated layout file is the same as the input.
+        # check that the generated layout file is the same as the input.
+        # the override file is user input: an entry whose "type" or "n_slots"
+        # does not agree with the declared variable (or a superfluous key)
+        # is an error in the file, not an internal compiler error.
         roundtrip = generate_layout_export(vyper_module).get(_LAYOUT_KEYS[DataLocation.STORAGE], {})
         if roundtrip != storage_layout_overrides:
-            msg = "Computed storage layout does not match override file!\n"
-            msg += f"expected: {json.dumps(storage_layout_overrides)}\n\n"
-            msg += f"got:\n{json.dumps(roundtrip)}"
-            raise CompilerPanic(msg)
+            msg = "Storage layout override file does not match the layout of the contract!\n"
+            msg += f"override file: {json.dumps(storage_layout_overrides)}\n\n"
+            msg += f"computed layout:\n{json.dumps(roundtrip)}"
+            raise StorageLayoutException(msg)
     else:
         _allocate_layout_r(vyper_module)
 
